@@ -718,4 +718,67 @@ def entry (table : List (List Nat)) (idx : Nat) (pid : Key) (s : SetShape) (data
             .ok { used := accts.length - rest.length, rem := rest.length, val := sv,
                   v := validate s sv, args := run }
 
+/-! ## `derive(InstructionArgs)`: which field of the instruction each phase receives
+
+`star_frame_proc/src/instruction_args.rs`: the struct-level `#[ix_args(..)]` is handled first
+(the phase gets the whole struct), then the fields in declaration order; for a field the generated
+accessor is `r.<ident>` — for a tuple struct `r.<i>` with `i` the field's index among ALL fields
+(`data_struct.fields.iter().enumerate()`). A phase nobody is annotated with gets `()`. -/
+
+inductive Phase
+  | decode | validate | run | cleanup
+deriving Repr, DecidableEq
+
+/-- the indices `i` of the generated `r.<i>` accessors of a phase, counting from `i₀` -/
+def accessors (ph : Phase) : Nat → List (List Phase) → List Nat
+  | _, [] => []
+  | i, a :: as => if ph ∈ a then i :: accessors ph (i + 1) as else accessors ph (i + 1) as
+
+/-- `InstructionArgs::split_to_args`, one phase: the values handed to it (the whole struct first if
+the struct itself is annotated, then one per generated accessor). -/
+def splitPhase (ph : Phase) (selfAnn : List Phase) (anns : List (List Phase)) (vals : List Nat) :
+    List (List Nat) :=
+  (if ph ∈ selfAnn then [vals] else []) ++
+    (accessors ph 0 anns).filterMap (fun i => vals[i]?.map (fun x => [x]))
+
+/-- borsh of a tuple struct of `n` `u8` fields -/
+def deVals (n : Nat) (bs : List Nat) : Option (List Nat × List Nat) :=
+  if bs.length < n then none else some (bs.take n, bs.drop n)
+
+/-- the account set of the tuple-struct harness instructions: `{ v: Vec<AccountInfo> }` whose
+length is the decode argument -/
+def spyShape : SetShape := .struct [.vec (.single false false none [])]
+
+structure TupleOut where
+  used : Nat
+  rem : Nat
+  decoded : Nat
+  validate : List (List Nat)
+  run : List (List Nat)
+  cleanup : List (List Nat)
+deriving Repr
+
+/-- Entry path of a tuple-struct harness instruction (`u8` fields; exactly one field annotated
+`decode`, whose value is the length of the vector). -/
+def entryTuple (table : List (List Nat)) (idx : Nat) (pid : Key) (selfAnn : List Phase)
+    (anns : List (List Phase)) (data : List Nat) (accts : List Acct) : Except EntryErr TupleOut :=
+  match dispatch table data with
+  | none => .error .badData
+  | some (i, payload) =>
+    if i ≠ idx then .error .badData
+    else match deVals anns.length payload with
+      | none => .error .badData
+      | some (vals, _) =>
+        match splitPhase .decode selfAnn anns vals with
+        | [[d]] =>
+          match decode pid spyShape (.fields [.len d .unit]) accts with
+          | .error e => .error (.decode e)
+          | .ok (sv, rest) =>
+            .ok { used := accts.length - rest.length, rem := rest.length,
+                  decoded := (match sv with | .many [.many vs] => vs.length | _ => 0),
+                  validate := splitPhase .validate selfAnn anns vals,
+                  run := splitPhase .run selfAnn anns vals,
+                  cleanup := splitPhase .cleanup selfAnn anns vals }
+        | _ => .error .badData
+
 end Account.Sets
